@@ -82,6 +82,8 @@ structure State where
   keys : List (Bytes × Addr) := []
   /-- height of the block the next transactions are in -/
   height : Nat := 1
+  /-- timestamp of that block -/
+  time : Nat := 0
   -- node manager (contract ..05)
   gv : Option GovView := none
   candIndex : Option Nat := none
@@ -96,6 +98,9 @@ structure State where
   scUpd : List (Nat × SideChain) := []
   scQuit : List Nat := []
   sc : List (Nat × SideChain) := []
+  /-- fee ‖ chain id -> (view, fee) and feeInfo ‖ chain id ‖ view -> (start time, proposed fee per voter) -/
+  fees : List (Nat × (Nat × Nat)) := []
+  feeInfos : List ((Nat × Nat) × (Nat × List (Addr × Nat))) := []
   -- relayer manager (..06)
   relayers : List Addr := []
   rlApply : List (Nat × (List Addr × Addr)) := []
@@ -378,6 +383,40 @@ def operatorOk (s : State) : Bool :=
     | none => false
     | some cons => decide (1 ≤ cons.length ∧ cons.length ≤ 16)
 
+/-- insertion sort, descending (`sort.SliceStable` with `Cmp >= 1` on the proposed fees) -/
+def insertDesc (x : Nat) : List Nat → List Nat
+  | [] => [x]
+  | y :: t => if x ≥ y then x :: y :: t else y :: insertDesc x t
+
+def sortDesc (l : List Nat) : List Nat := l.foldr insertDesc []
+
+/-- the fee installed at the quorum: five times the median of all proposals of the view -/
+def medianFee (vals : List Nat) : Nat :=
+  let l := sortDesc vals
+  if l.length % 2 = 0 then ((l.getD (l.length / 2) 0 + l.getD (l.length / 2 - 1) 0) * 5) / 2
+  else l.getD ((l.length - 1) / 2) 0 * 5
+
+/-- `m[addr] = fee` on the proposals of a view -/
+def feePut (l : List (Addr × Nat)) (a : Addr) (v : Nat) : List (Addr × Nat) := alPut l a v
+
+/-- What `UpdateFee` records before it counts the vote: the proposal joins the proposals of the view; a view whose
+first proposal is older than 300 s is abandoned (the view advances, the proposals start afresh). -/
+structure FeeRound where
+  fv : Nat
+  fees : List (Nat × (Nat × Nat))
+  infos : List ((Nat × Nat) × (Nat × List (Addr × Nat)))
+  entries : List (Addr × Nat)
+
+def feeRound (s : State) (a : Addr) (chain view fee : Nat) : FeeRound :=
+  let ff := ((alGet s.fees chain).getD (0, 0)).2
+  let info := (alGet s.feeInfos (chain, view)).getD (0, [])
+  let expired := decide (info.1 ≠ 0) && decide (wrapSub32 s.time info.1 > 300)
+  let fv := if expired then view + 1 else view
+  let start := if info.1 = 0 || expired then s.time else info.1
+  let entries := feePut (if expired then [] else info.2) a fee
+  { fv := fv, fees := if expired then alPut s.fees chain (view + 1, ff) else s.fees,
+    infos := alPut s.feeInfos (chain, fv) (start, entries), entries := entries }
+
 /-- `TxActor.isValidSender`: some signer is a registered relayer or a permitted address. -/
 def admits (s : State) (signers : List Addr) : Bool :=
   signers.any (fun a => s.relayers.contains a || s.permitted.contains a)
@@ -385,6 +424,9 @@ def admits (s : State) (signers : List Addr) : Bool :=
 inductive Op
   | key (pk : Bytes) (addr : Addr)
   | height (h : Nat)
+  | time (t : Nat)
+  /-- side_chain_manager.UpdateFee: validator `addr` proposes `fee` for `chain` in fee view `view` -/
+  | fee (signers : List Addr) (addr : Addr) (chain view fee : Nat)
   | init (mbcv : Nat) (peers : List (Nat × String × Addr))
   | reg (signers : List Addr) (pk : String) (addr : Addr)
   | unreg (signers : List Addr) (pk : String) (addr : Addr)
@@ -429,6 +471,32 @@ variable (H : Bytes → Bytes)
 def plan (s : State) : Op → M Plan
   | .key pk a => .ok (.done { st := { s with keys := alPut s.keys pk a }, ret := "", events := [] })
   | .height h => .ok (.done { st := { s with height := h }, ret := "", events := [] })
+  | .time t => .ok (.done { st := { s with time := t }, ret := "", events := [] })
+  -- side_chain_manager.UpdateFee: proposal recorded, view bumped after 300 s without quorum, CheckVotes on
+  -- "updateFee" ‖ chain ‖ view, at the quorum five times the median of the proposals is installed and the view advances
+  | .fee sg a chain view fee =>
+    if !witness sg a then .error .err else
+    if ((alGet s.fees chain).getD (0, 0)).1 ≠ view then .error .err else
+    let id := strBytes "updateFee" ++ u64le chain ++ u64le (feeRound s a chain view fee).fv
+    if ((alGet s.votes id).getD (false, [])).1 then
+      .ok (.done { st := { s with fees := (feeRound s a chain view fee).fees, feeInfos := (feeRound s a chain view fee).infos },
+                   ret := "1", events := [] }) else
+    match curPool s with
+    | none => .error .err
+    | some (_, pool) =>
+      match consAddrs s pool with
+      | none => .error .err
+      | some cons =>
+        match voteStep ((alGet s.votes id).getD (false, [])) cons a with
+        | none => .error .err
+        | some (vinfo, false) =>
+          .ok (.done { st := { s with fees := (feeRound s a chain view fee).fees, feeInfos := (feeRound s a chain view fee).infos,
+                                      votes := alPut s.votes id vinfo }, ret := "1", events := [] })
+        | some (vinfo, true) =>
+          .ok (.done { st := { s with fees := alPut (feeRound s a chain view fee).fees chain
+                                                ((feeRound s a chain view fee).fv + 1, medianFee ((feeRound s a chain view fee).entries.map (·.2))),
+                                      feeInfos := (feeRound s a chain view fee).infos,
+                                      votes := alPut s.votes id vinfo }, ret := "1", events := [] })
   | .init mbcv peers => initConfig s mbcv peers
   | .reg sg pk a => registerCandidate s sg pk a
   -- UnRegisterCandidate
